@@ -57,7 +57,6 @@ import (
 	_ "unsafe"
 
 	"golang.org/x/tools/go/ssa"
-	
 )
 
 type continuation int
@@ -526,6 +525,11 @@ func callSSA(i *interpreter, caller *frame, callpos token.Pos, fn *ssa.Function,
 			i.inited[fn.Pkg] = true
 		} else if fn.Pkg != nil && !i.inited[fn.Pkg] {
 			i.ensureInit(fn.Pkg)
+		}
+		if i.x != nil && i.x.W != nil && i.x.W.Summarize[name] && i.x.inSummary == 0 {
+			if r, ok := i.summarized(fn, name, args); ok {
+				return r
+			}
 		}
 		if ext := lookupExternal(name); ext != nil {
 			if i.mode&EnableTracing != 0 {
